@@ -122,6 +122,12 @@ def arch_yaml(spec, keep_all=True):
         if L["vpa_c"]:
             extra += "    values_per_action: {" + ", ".join(f"{k}: {v}" for k, v in L["vpa_c"].items()) + "}\n"
         vr = ", values_per_action: {" + ", ".join(f"{k}: {v}" for k, v in L["vpa_r"].items()) + "}" if L["vpa_r"] else ""
+        if L.get("toll"):
+            dirs = "{" + ", ".join(f"{k}: {v}" for k, v in L["dir"].items()) + "}"
+            s += (f"  - !Toll\n    name: {L['name']}\n    direction: {dirs}\n    leak_power: {L['leak']}\n    area: 0\n"
+                  f"    tensors: {{keep: Nothing, may_keep: All}}\n{extra}"
+                  f"    actions:\n    - {{name: read, energy: {L['re']}, throughput: {thr(L['rthr'])}, bits_per_action: {L['bpa_r']}{vr}}}\n")
+            continue
         s += (f"  - !Memory\n    name: {L['name']}\n    size: {'inf' if L['size'] is None else L['size']}\n    leak_power: {L['leak']}\n    area: 0\n"
               f"    skip_initial_output_write: {str(L['skip'])}\n"
               f"    tensors: {{keep: {'All' if i == 0 else 'Nothing'}, may_keep: All}}\n{extra}"
@@ -149,7 +155,8 @@ def mapping_yaml(spec, m):
     s = "mapping:\n  nodes:\n"
     for n in m:
         if n[0] == "sto":
-            s += f"  - !Storage {{tensors: [{spec['tensors'][n[2]]['name']}], component: {spec['levels'][n[1]]['name']}}}\n"
+            kind = "Toll" if spec["levels"][n[1]].get("toll") else "Storage"
+            s += f"  - !{kind} {{tensors: [{spec['tensors'][n[2]]['name']}], component: {spec['levels'][n[1]]['name']}}}\n"
         else:
             s += f"  - !Temporal {{rank_variable: {RV[n[1]]}, tile_shape: {n[2]}}}\n"
     s += "  - !Compute {einsum: E, component: MAC}\n"
@@ -172,9 +179,32 @@ def coq_mapping(m):
     return coq_list([f"(Sto {n[1]}%nat {n[2]}%nat)" if n[0] == "sto" else f"(Loop {n[1]}%nat {coq_Z(n[2])})" for n in m])
 
 
+def add_toll(rng, spec):
+    """insert a Toll level somewhere below level 0"""
+    pos = rng.randint(1, len(spec["levels"]))
+    dirs = {T["name"]: rng.choice(["up", "down", "up_and_down", "up_and_down"]) for T in spec["tensors"]}
+    toll = {"name": f"Toll{pos}", "toll": True, "dir": dirs, "skip": True, "re": rng.randint(1, 100), "we": 0,
+            "rthr": rng.choice([None, None, 2, 4]), "wthr": None, "leak": 0, "bpa_r": rng.choice([8, 8, 16]), "bpa_w": 8,
+            "bpv": {}, "vpa_c": {}, "vpa_r": {}, "size": None}
+    spec["levels"].insert(pos, toll)
+    return spec
+
+
+def coq_tollf(spec):
+    nt = len(spec["tensors"])
+    rows = []
+    for L in spec["levels"]:
+        if L.get("toll"):
+            rows.append(coq_list([f"(Some ({str(L['dir'][T['name']] != 'down').lower()}, {str(L['dir'][T['name']] != 'up').lower()}))" for T in spec["tensors"]]))
+        else:
+            rows.append(coq_list(["None"] * nt))
+    return f"(fun l t => nth t (nth l {coq_list(rows)} []) None)"
+
+
 def py_model(spec, m):
     """python re-implementation of the execution count (brute-force iteration), used as the oracle:
-       returns {(lvl, t): [reads, writes]} in values"""
+       returns {(lvl, t): [reads, writes]} in values.  Tolls forward every fetch / write-back between the holder below
+       and the Memory above and count one read per value crossing in their configured direction."""
     nt = len(spec["tensors"])
     res = {}
     for t in range(nt):
@@ -186,39 +216,59 @@ def py_model(spec, m):
                 chain.append(("L", shape[n[1]] // n[2], T["rel"][n[1]]))
                 shape[n[1]] = n[2]
             elif n[2] == t:
+                L = spec["levels"][n[1]]
+                if L.get("toll"):
+                    d = L["dir"][T["name"]]
+                    chain.append(("T", n[1], d != "down", d != "up"))
+                    continue
                 occ = 1
                 for v, r in enumerate(T["rel"]):
                     if r:
                         occ *= shape[v]
-                chain.append(("H", n[1], spec["levels"][n[1]]["skip"], occ))
+                chain.append(("H", n[1], L["skip"], occ))
         cnt = {}
 
         def add(l, w, v):
             cnt.setdefault(l, [0, 0])[1 if w else 0] += v
 
-        def ex(i, parent, fresh):
+        def fetch(path, mem, v, elide_child):
+            for (tl, up, down) in path:
+                cnt.setdefault(tl, [0, 0])
+                if down:
+                    add(tl, False, 0 if elide_child else v)
+            add(mem[0], False, 0 if (elide_child and mem[1]) else v)
+
+        def writeback(path, mem, v):
+            for (tl, up, down) in path:
+                cnt.setdefault(tl, [0, 0])
+                if up:
+                    add(tl, False, v)
+            add(mem[0], True, v)
+
+        def ex(i, path, mem, fresh):
             if i == len(chain):
-                if parent is not None:
-                    pl, ps = parent
-                    add(pl, False, 0 if (T["out"] and spec["compute"]["skip"] and ps and fresh) else 1)
+                if mem is not None:
+                    fetch(path, mem, 1, T["out"] and spec["compute"]["skip"] and fresh)
                     if T["out"]:
-                        add(pl, True, 1)
+                        writeback(path, mem, 1)
                 return
             it = chain[i]
             if it[0] == "L":
                 for j in range(it[1]):
-                    ex(i + 1, parent, fresh and (it[2] or j == 0))
+                    ex(i + 1, path, mem, fresh and (it[2] or j == 0))
+            elif it[0] == "T":
+                ex(i + 1, path + [(it[1], it[2], it[3])], mem, fresh)
             else:
                 _, lvl, skip, tile = it
-                if parent is not None:
-                    pl, ps = parent
-                    add(pl, False, 0 if (T["out"] and skip and ps and fresh) else tile)
-                    add(lvl, True, 0 if (T["out"] and skip and fresh) else tile)
-                ex(i + 1, (lvl, skip), fresh)
-                if parent is not None and T["out"]:
+                if mem is not None:
+                    el = T["out"] and skip and fresh
+                    fetch(path, mem, tile, el)
+                    add(lvl, True, 0 if el else tile)
+                ex(i + 1, [], (lvl, skip), fresh)
+                if mem is not None and T["out"]:
                     add(lvl, False, tile)
-                    add(parent[0], True, tile)
-        ex(0, None, True)
+                    writeback(path, mem, tile)
+        ex(0, [], None, True)
         for l, rw in cnt.items():
             res[(l, t)] = rw
     return res
